@@ -49,10 +49,10 @@ const (
 type Val struct {
 	T     types.Type
 	C     []*smt.Term
-	Cell  *Cell   // pointer to an executor cell
-	Root  int     // for heap pointers
-	RootT string  // heap type key of the root object / element
-	Path  string  // component-suffix prefix selected so far inside the root element
+	Cell  *Cell  // pointer to an executor cell
+	Root  int    // for heap pointers
+	RootT string // heap type key of the root object / element
+	Path  string // component-suffix prefix selected so far inside the root element
 	Clo   *Closure
 	Tup   []Val // tuples
 	Bound int   // static upper bound on len for slices derived from fixed arrays (0 = unknown)
